@@ -38,6 +38,14 @@ type umsg struct {
 	id   int
 	slow bool
 }
+// ubatch: an actor.MessageBatch — the mailbox posts its elements first, then the batch message itself
+type ubatch struct {
+	id    int
+	elems []interface{}
+}
+
+func (b *ubatch) GetMessages() []interface{} { return b.elems }
+
 type smsg struct {
 	id   int
 	slow bool
@@ -54,6 +62,9 @@ type thread struct {
 	curMsg  int  // message about to be pushed (posters)
 	curSK   string
 	curSlow bool
+	curBt   string // "b<n>" / "e<n>": this push is a batch message whose n elements were the previous n pushes
+	flat    []pmsg // posters: every push this thread will perform, in order (batch elements, then the batch itself)
+	fi      int
 }
 
 type ctl struct {
@@ -91,6 +102,14 @@ func (c *ctl) yield(point string) {
 	}
 	th.point = point
 	th.parked = true
+	if (point == "pu.push" || point == "ps.push") && th.fi < len(th.flat) {
+		m := th.flat[th.fi]
+		th.fi++
+		th.curMsg, th.curSK, th.curSlow, th.curBt = m.id, m.sk, m.slow, ""
+		if len(m.batch) > 0 {
+			th.curBt = fmt.Sprintf("%s%d", m.bk, len(m.batch))
+		}
+	}
 	c.mu.Unlock()
 	<-th.grant
 }
@@ -144,6 +163,16 @@ func (c *ctl) InvokeSystemMessage(m interface{}) {
 	}
 }
 func (c *ctl) InvokeUserMessage(m interface{}) {
+	if env, ok := m.(actor.MessageEnvelope); ok {
+		m = env.Message
+	}
+	if b, ok := m.(*ubatch); ok {
+		c.mu.Lock()
+		c.invLog = append(c.invLog, fmt.Sprintf("u:%d", b.id))
+		c.dlvU = append(c.dlvU, b.id)
+		c.mu.Unlock()
+		return
+	}
 	if u, ok := m.(*umsg); ok {
 		c.mu.Lock()
 		c.invLog = append(c.invLog, fmt.Sprintf("u:%d", u.id))
@@ -182,9 +211,20 @@ type poster struct {
 	msgs []pmsg
 }
 type pmsg struct {
-	id   int
-	slow bool
-	sk   string // n s r (system)
+	id    int
+	slow  bool
+	sk    string // n s r (system)
+	batch []pmsg // user: this message is a MessageBatch with these elements (posted first by the mailbox)
+	bk    string // "b" raw batch, "e" batch inside a MessageEnvelope
+}
+
+func flatten(ms []pmsg) []pmsg {
+	var out []pmsg
+	for _, m := range ms {
+		out = append(out, m.batch...)
+		out = append(out, m)
+	}
+	return out
 }
 
 var cpcOf = map[string]string{"cons.take": "wait", "run.iter": "iter", "bp.cas": "bpcas", "run.pops": "pops", "run.lsusp": "lsusp",
@@ -232,15 +272,24 @@ func runCase(h *hx.T, posters []poster, choose func(c *ctl, parked []*thread, st
 	var sysOrder []pmsg
 	for i := range posters {
 		p := posters[i]
-		th := &thread{name: fmt.Sprintf("%s%d", p.kind, p.id), kind: p.kind, grant: make(chan struct{})}
+		th := &thread{name: fmt.Sprintf("%s%d", p.kind, p.id), kind: p.kind, grant: make(chan struct{}), flat: flatten(p.msgs)}
 		go func() {
 			c.register(th)
 			for _, m := range p.msgs {
-				c.mu.Lock()
-				th.curMsg, th.curSK, th.curSlow = m.id, m.sk, m.slow
-				c.mu.Unlock()
 				if p.kind == "u" {
-					mb.PostUserMessage(&umsg{id: m.id, slow: m.slow})
+					if len(m.batch) > 0 {
+						b := &ubatch{id: m.id}
+						for _, e := range m.batch {
+							b.elems = append(b.elems, &umsg{id: e.id, slow: e.slow})
+						}
+						if m.bk == "e" {
+							mb.PostUserMessage(actor.MessageEnvelope{Message: b})
+						} else {
+							mb.PostUserMessage(b)
+						}
+					} else {
+						mb.PostUserMessage(&umsg{id: m.id, slow: m.slow})
+					}
 				} else {
 					switch m.sk {
 					case "s":
@@ -277,6 +326,9 @@ func runCase(h *hx.T, posters []poster, choose func(c *ctl, parked []*thread, st
 		_ = sysPopBefore
 		if pt == "pu.push" {
 			op += fmt.Sprintf(" msg=%d slow=%d", th.curMsg, hx.B2i(th.curSlow))
+			if th.curBt != "" {
+				op += " bt=" + th.curBt
+			}
 		}
 		if pt == "ps.push" {
 			op += fmt.Sprintf(" msg=%d sk=%s slow=%d", th.curMsg, th.curSK, hx.B2i(th.curSlow))
@@ -378,6 +430,24 @@ func genPosters(h *hx.T) []poster {
 		for k := 0; k < n; k++ {
 			p.msgs = append(p.msgs, pmsg{id: (i+1)*1000 + k + 1, slow: h.R.Intn(6) == 0})
 		}
+		if n >= 2 && n <= 6 && h.R.Intn(5) == 0 {
+			// a MessageBatch: the first 1..n-1 messages become its elements, the batch message itself follows them
+			// in the queue (ids stay increasing per sender); the rest of the sender's messages come after it
+			k := 1 + h.R.Intn(n-1)
+			b := pmsg{id: p.msgs[k-1].id, bk: []string{"b", "e"}[h.R.Intn(2)]}
+			for j := 0; j < k; j++ {
+				e := p.msgs[j]
+				e.id = e.id*10 + 0 // element ids: distinct from plain ids, still increasing within the sender
+				b.batch = append(b.batch, e)
+			}
+			b.id = b.id*10 + 5
+			rest := append([]pmsg{b}, p.msgs[k:]...)
+			for j := 1; j < len(rest); j++ {
+				rest[j].id = rest[j].id*10 + 9
+			}
+			p.msgs = rest
+			h.Count("gen.batch." + b.bk)
+		}
 		ps = append(ps, p)
 	}
 	if h.R.Intn(2) == 0 {
@@ -463,6 +533,9 @@ func chooser(h *hx.T, mode int) func(c *ctl, parked []*thread, step int) *thread
 				if cons != nil && cons.point == "pm.idle" && len(posters) > 0 {
 					victim = posters[h.R.Intn(len(posters))]
 					budget = 1 + h.R.Intn(4)
+					if h.R.Intn(2) == 0 {
+						budget = 4 // push, incr, load paused, CAS (fails: the consumer has not stored idle yet)
+					}
 					phase = 1
 					return victim
 				}
@@ -545,7 +618,15 @@ func replayCases(h *hx.T, ops []string) {
 				order = append(order, name)
 			}
 			sk, _ := hx.KV(ws, "sk")
-			p.msgs = append(p.msgs, pmsg{id: hx.KVInt(ws, "msg"), slow: hx.KVInt(ws, "slow") == 1, sk: sk})
+			m := pmsg{id: hx.KVInt(ws, "msg"), slow: hx.KVInt(ws, "slow") == 1, sk: sk}
+			if bt, ok := hx.KV(ws, "bt"); ok && len(bt) >= 2 {
+				if n, err := strconv.Atoi(bt[1:]); err == nil && n <= len(p.msgs) {
+					m.bk = bt[:1]
+					m.batch = append([]pmsg(nil), p.msgs[len(p.msgs)-n:]...)
+					p.msgs = p.msgs[:len(p.msgs)-n]
+				}
+			}
+			p.msgs = append(p.msgs, m)
 		}
 		var ps []poster
 		for _, n := range order {
